@@ -3,7 +3,12 @@ package main
 func init() {
 	regWorld(&World{Name: "wu", Pkg: "google.golang.org/grpc/internal/zzverif/wu", Mounts: map[string]string{"internal/zzverif/wu": "sim/wu"}})
 	selftestProps = append(selftestProps, "C29wu")
-	regProp("C29wu", wu("internal/idle.Manager (all of idle.go)").doc(
+	c29 := wu("internal/idle.Manager (all of idle.go)")
+	// the deepest race seeded so far (a whole short RPC between the timer's
+	// checks and its CAS plus a third caller's increment between its re-check
+	// and its undo) shows about once in 10^5 runs
+	c29.QuickRuns, c29.QuickSecs = 350000, 60
+	regProp("C29wu", c29.doc(
 		"Seeded search over interleavings of the atomic steps of OnCallBegin/OnCallEnd/timer callback/ExitIdleMode/Close of the real idle.Manager (every atomic and lock is a scheduling point), with idle timeouts of nanoseconds so expiry races with calls; oracle checked at every enforcer callback and every call boundary. Sampling, not proof.",
 		"Trusted: detrt runtime patch, synctest clock, the oracle. clientconn.go's use of the manager is exercised separately in the end-to-end world.",
 		"seeded schedule search over the real idle.Manager with a recording enforcer"))
